@@ -158,6 +158,9 @@ func (t *PageTree) loadPages() error {
 	return nil
 }
 
+// inheritableKeys are the page attributes a leaf takes from its ancestors.
+var inheritableKeys = []string{"Resources", "MediaBox", "CropBox", "Rotate"}
+
 // traversePageNode recursively traverses a page tree node
 // parent is the parent Pages dictionary for inheritable attributes
 func (t *PageTree) traversePageNode(node core.Dict, parent core.Dict) error {
@@ -191,6 +194,27 @@ func (t *PageTree) traversePageNode(node core.Dict, parent core.Dict) error {
 			return fmt.Errorf("invalid /Kids type: %T", kidsResolved)
 		}
 
+		// Inheritable attributes (ISO 32000-1 7.7.3.4) come from the nearest
+		// ancestor that defines them, which may be several levels up: hand the
+		// children this node's dictionary completed with what it inherits itself.
+		inherited := node
+		if parent != nil {
+			copied := false
+			for _, key := range inheritableKeys {
+				if node.Get(key) != nil || parent.Get(key) == nil {
+					continue
+				}
+				if !copied {
+					inherited = make(core.Dict, len(node)+len(inheritableKeys))
+					for k, v := range node {
+						inherited[k] = v
+					}
+					copied = true
+				}
+				inherited[key] = parent.Get(key)
+			}
+		}
+
 		// Traverse each child
 		for i, kidObj := range kids {
 			// Resolve child reference
@@ -204,8 +228,8 @@ func (t *PageTree) traversePageNode(node core.Dict, parent core.Dict) error {
 				return fmt.Errorf("invalid kid type: %T", kidResolved)
 			}
 
-			// Recursively traverse child (passing current node as parent)
-			if err := t.traversePageNode(kidDict, node); err != nil {
+			// Recursively traverse child, handing down the inheritable attributes
+			if err := t.traversePageNode(kidDict, inherited); err != nil {
 				return err
 			}
 		}
